@@ -119,6 +119,18 @@ def run(ck):
     shutil.rmtree(os.path.join(root, cases[-1][0]))
     impl, model = base.run_cases(exe, md, cases, root, valid_dir=vdir, leak=1)
     stats = {"crash": {}}; dist = {}; clean = 0; res = {"0": 0, "1": 0, "crash": 0, "hang": 0}; dis = 0; samples = []
+    # the same files outside low-level debug mode against an interface that never answers (every 6th case): the start must
+    # still return 0 or 1 (here 1: rejected, or no connection), stopped, memory and locks released, restartable
+    sub = [c for i, c in enumerate(cases) if i % 6 == 0]
+    impl_n, _ = base.run_cases(exe, None, [(cid, d, None) for cid, d, ast in sub], root, valid_dir=vdir, leak=1, mode=1)
+    nclean = 0
+    for cid, d, ast in sub:
+        cls, detail, blobs = meta[cid]
+        o = impl_n.get(cid)
+        if o is not None and o.get("start") == "0":
+            ck.violation("start.return-value.silent-interface", {"property": "C13", "class": cls, "detail": detail, "observation": o, "reason": "start returned 0 although the interface never answered"}); continue
+        if judge(ck, "normal-silent." + cls, detail, blobs, o, ref_dump, {"crash": {}}): nclean += 1
+    ck.oblige("normal mode against a silent interface: %d configuration triples return 1, stopped, released, restartable" % len(sub), nclean == len(sub), "%d not clean" % (len(sub) - nclean))
     for cid, d, ast in cases:
         cls, detail, blobs = meta[cid]
         dist[cls] = dist.get(cls, 0) + 1
@@ -164,6 +176,8 @@ def replay(ck, path):
         else: blobs.append(rp["files"][n].encode("utf-8"))
     d = write_raw(root, "0", blobs)
     vdir = base.write_case(root, "valid", cfggen.example_doc())
-    impl, _ = base.run_cases(exe, None, [("0", d, None)], root, valid_dir=vdir, leak=1)
+    mode = 1 if str(rp.get("class", "")).startswith("normal-silent.") else 0      # normal mode against a silent interface
+    impl, _ = base.run_cases(exe, None, [("0", d, None)], root, valid_dir=vdir, leak=1, mode=mode)
+    print("mode: %s" % ("normal mode, interface never answers" if mode else "low-level debug mode"))
     print(impl.get("0")); print(rp.get("reason", ""))
     return 0
